@@ -10,6 +10,24 @@ import_gscrib()
 from gscrib.excepts import ToolStateError, CoolantStateError   # noqa: E402  (an interlock may apply as well)
 
 NAN = "nan"
+
+
+class SupplyHook:
+    """Move hook that supplies an F or S word. `fresh=True` returns a new mapping instead of mutating its argument
+    (both are legal: the builder documents that the hook's *return value* is what gets used)."""
+
+    def __init__(self, key, fresh):
+        self.key, self.fresh, self.value = key, fresh, None
+
+    def __call__(self, origin, target, params, state):
+        if self.value is None:
+            return params
+        if self.fresh:
+            out = type(params)(params)
+            out[self.key] = self.value
+            return out
+        params.update({self.key: self.value})
+        return params
 AXI = {"x": 0, "y": 1, "z": 2}
 TEMP_CODES = {"M104": "hotend-temperature", "M109": "hotend-temperature", "M140": "bed-temperature",
               "M190": "bed-temperature", "M141": "chamber-temperature", "M191": "chamber-temperature"}
@@ -34,8 +52,9 @@ def ladder(lo, hi):
 
 
 class C03System(BuilderSystem):
-    def __init__(self, label, bounds, families, translate=None, rebound=None):
+    def __init__(self, label, bounds, families, translate=None, rebound=None, hooks=False):
         self.label = label
+        self.hooks = hooks
         self.bounds0 = bounds            # dict name -> (lo, hi); axes -> ((x,y,z),(x,y,z))
         self.families = families
         self.translate = translate
@@ -52,6 +71,13 @@ class C03System(BuilderSystem):
             st.g.transform.translate(*self.translate)
             st.offset = tuple(float(v) for v in self.translate)
         st.g.set_resolution(1.0)
+        st.hooks = {}
+        if self.hooks:
+            for key in ("F", "S"):
+                for fresh in (False, True):
+                    h = SupplyHook(key, fresh)
+                    st.hooks[(key, fresh)] = h
+                    st.g.add_hook(h)
 
     # ---- alphabet ----------------------------------------------------
     def scalar_ladder(self, st, name):
@@ -116,6 +142,12 @@ class C03System(BuilderSystem):
                 for v in self.scalar_ladder(st, name):
                     ops += [[f"set_{t}_temperature", [v]], ["halt", [f"wait-for-{t}"], {"S": v}],
                             ["halt", [f"wait-for-{t}"], {"R": v}], ["halt", [f"wait-for-{t}"], {"s": v}]]
+        if self.hooks:
+            for key, name in (("F", "feed-rate"), ("S", "tool-power")):
+                if name in fam:
+                    for v in self.scalar_ladder(st, name):
+                        for fresh in (False, True):
+                            ops.append(["hook-move", [key, fresh, v]])
         if self.rebound and self.rebound[0] in st.bounds and st.bounds[self.rebound[0]] != (self.rebound[1], self.rebound[2]):
             ops.append(["set_bounds", list(self.rebound)])
         return ops
@@ -146,6 +178,11 @@ class C03System(BuilderSystem):
                 why.append(f"F={kw['F']} outside {b['feed-rate']}")
             if "S" in kw and "tool-power" in b and outside(kw["S"], *b["tool-power"]):
                 why.append(f"S={kw['S']} outside {b['tool-power']}")
+        elif name == "hook-move":
+            key, _, v = op[1]
+            bn = "feed-rate" if key == "F" else "tool-power"
+            if bn in b and outside(v, *b[bn]):
+                why.append(f"hook supplies {key}={v} outside {b[bn]}")
         elif name == "set_feed_rate" and "feed-rate" in b and outside(op[1][0], *b["feed-rate"]):
             why.append("feed rate")
         elif name == "set_tool_power" and "tool-power" in b and outside(op[1][0], *b["tool-power"]):
@@ -171,7 +208,14 @@ class C03System(BuilderSystem):
         m = st.machine
         pre_known, pre_pos, pre_rel = dict(m.known), dict(m.pos), m.relative
         why = self.requested_outside(st, op, pre_known, pre_pos, pre_rel)
-        exc, chunks = self.apply(st, op)
+        if op[0] == "hook-move":
+            key, fresh, v = op[1]
+            h = st.hooks[(key, fresh)]
+            h.value = float(v) if isinstance(v, str) else v
+            exc, chunks = self.apply(st, ["move", [], {"y": 1}])
+            h.value = None
+        else:
+            exc, chunks = self.apply(st, op)
         self.feed(st, chunks, problems)
         if op[0] == "set_bounds" and exc is None:
             st.bounds = dict(st.bounds)
@@ -235,6 +279,7 @@ def systems(tier):
         ("feed", C03System("feed", {"feed-rate": R}, ["feed-rate"], rebound=("feed-rate", 20, 50)), 3),
         ("power", C03System("power", {"tool-power": R}, ["tool-power"], rebound=("tool-power", 0, 50)), 3),
         ("feed+power", C03System("feed+power", {"feed-rate": (10, 100), "tool-power": (200, 300)}, ["feed-rate", "tool-power"]), 2),
+        ("feed+power-hooks", C03System("feed+power-hooks", {"feed-rate": (10, 100), "tool-power": (200, 300)}, ["feed-rate", "tool-power"], hooks=True), 2),
         ("temps+tool", C03System("temps+tool", {k: ALL[k] for k in ("tool-number", "bed-temperature", "hotend-temperature", "chamber-temperature")},
                                  ["tool-number", "bed", "bed-temperature", "hotend-temperature", "chamber-temperature"]), 2),
     ]
@@ -246,6 +291,7 @@ def systems(tier):
         ("power", C03System("power", {"tool-power": R}, ["tool-power"], rebound=("tool-power", 0, 50)), 3),
         ("temps+tool", q[3][1], 3),
         ("axes+feed", C03System("axes+feed", {"axes": BOX, "feed-rate": R}, ["axes", "feed-rate"]), 2),
+        ("feed+power-hooks", C03System("feed+power-hooks", {"feed-rate": (10, 100), "tool-power": (200, 300)}, ["feed-rate", "tool-power"], hooks=True), 3),
         ("all-seven", C03System("all-seven", ALL, list(ALL)), 2),
         ("axes-translated", C03System("axes-translated", {"axes": BOX}, ["axes"], translate=(10, 0, 0)), 3),
     ]
